@@ -129,6 +129,11 @@ def mk_stft(ns, L, S, style, kaldi, junk_tag='', rec_frames=True):
         frames.append([Ctx.cur.simp(frame.get(z3.IntVal(j))) for j in range(L)])
     if rec_frames:
         o._compute_frame = cf
+    import copy
+    from vlib import loader as _loader
+    for k, v in _loader.literal_init_fields('compute', 'ShortTimeFourierTransformFrameComputer').items():
+        if k not in o.__dict__:
+            o.__dict__[k] = copy.deepcopy(v)       # literal-initialised state the hand-built instance does not know about
     return o, frames
 
 
